@@ -424,8 +424,18 @@ def _path_order(ctx, g):
                 f"{g.qual}: the result paths are not filled in one loop")
     lp = next(iter(loops.values()))
     LEVEL = ("elem", T.of(lp.iter))
-    by_stmt = {}
+    # a local list that is filled first and then filed under the level
+    # (paths = []; paths.append(p) ...; OUT[level] = paths) is followed too
+    feeders = set()
     for e in mine:
+        if e.kind == "store" and e.value is not None and \
+                e.value[0] == "var" and inside(e.stmt, lp):
+            feeders.add(e.value[1])
+    feed_evs = [e for e in evs if root_name(e.recv) in feeders
+                and e.kind in ("append", "extend", "insert", "aug", "store")
+                and inside(e.stmt, lp)]
+    by_stmt = {}
+    for e in mine + feed_evs:
         by_stmt.setdefault(id(e.stmt), []).append(e)
     # flags tested inside the loop
     flags = set()
@@ -479,8 +489,31 @@ def _path_order(ctx, g):
                             return val[ps[0][1]]
                     raise KeyError(t)
                 seq = []
+                feed = {}
                 for st, env in trace(lp.body, T, atoms):
+                    if isinstance(st, ast.Assign) and len(
+                            st.targets) == 1 and isinstance(
+                                st.targets[0], ast.Name) and \
+                            st.targets[0].id in feeders:
+                        feed[st.targets[0].id] = [] if T.of(st.value) in (
+                            ("list", ()),) else ["?"]
                     for e in by_stmt.get(id(st), ()):
+                        if root_name(e.recv) in feeders:
+                            nm_ = root_name(e.recv)
+                            sub_ = (lambda t, env=env: map_term(
+                                t, lambda x: ("const", env[x]) if x in env
+                                else x))
+                            if e.kind == "append" and nm_ in feed:
+                                feed[nm_].append(kind_of(sub_(T.of(
+                                    e.node.args[0]))))
+                            else:
+                                feed[nm_] = ["?"]
+                            continue
+                        if e.kind == "store" and e.value is not None and \
+                                e.value[0] == "var" and \
+                                e.value[1] in feeders:
+                            seq = list(feed.get(e.value[1], ["?"]))
+                            continue
                         sub = (lambda t, env=env: map_term(
                             t, lambda x: ("const", env[x]) if x in env
                             else x))
